@@ -270,6 +270,9 @@ func (g *gen) displayNameOf(quotedSeparators bool) string {
 		// quoted strings protect what they contain: separators, brackets, things that look like parameters
 		return g.pick("\"Smith, John\" ", "\"a;tag=zz9\" ", "\"x <sip:y@z>\" ", "\"q\\\"uote\" ", "\"semi;colon\"")
 	}
+	if !quotedSeparators && g.chance(8) {
+		return g.pick("\"rack 19\\\" gw\" ", "\"50%off line\" ", "\"a\\\\\" ") // escaped quote, per cent sign, escaped backslash
+	}
 	switch g.intn(5) {
 	case 0:
 		return ""
@@ -359,6 +362,14 @@ func viaEntry(transport, host string, port int, params string) string {
 	return s + params
 }
 
+// viaEntryZ: as viaEntry, the port written with a leading zero (port = 1*DIGIT: still decimal)
+func viaEntryZ(transport, host string, port int, params string) string {
+	if port == 0 {
+		return viaEntry(transport, host, port, params)
+	}
+	return "SIP/2.0/" + transport + " " + host + fmt.Sprintf(":0%d", port) + params
+}
+
 // layoutList distributes list entries over header lines: each line holds one
 // or several comma-separated entries; names are drawn from names.
 func (g *gen) layoutList(entries []string, names []string, mode int) []sipwire.Header {
@@ -375,7 +386,7 @@ func (g *gen) layoutList(entries []string, names []string, mode int) []sipwire.H
 		}
 		sep := ","
 		if g.chance(30) {
-			sep = ", "
+			sep = g.pick(", ", ", ", " , ", " ,", ",  ") // commas of a list may have blanks on either side
 		}
 		out = append(out, sipwire.Header{Name: names[g.intn(len(names))], Value: strings.Join(entries[i:i+k], sep)})
 		i += k
